@@ -103,6 +103,20 @@ fn run<B: FullBackend>(m: &poulpy_hal::layouts::Module<B>, c: &Case) -> Verdict 
     if o1.cells.iter().zip(o1b.cells.iter()).any(|(x, y)| x.raw() != y.raw()) {
         return fail("not-deterministic", "two runs with identical inputs and seeds differ".into());
     }
+    // no mask (seed) is used twice inside one object
+    {
+        use std::collections::HashMap;
+        let mut seen: HashMap<Vec<i64>, usize> = HashMap::new();
+        for (ci, cell) in o1.cells.iter().enumerate() {
+            if cell.cols() < 2 {
+                continue;
+            }
+            let key: Vec<i64> = (1..cell.cols()).flat_map(|col| cell.at(col, 0).iter().copied()).collect();
+            if let Some(prev) = seen.insert(key, ci) {
+                return fail("mask-reused-across-cells", format!("cells {prev} and {ci} of the same object carry the identical mask (mask stream / seed reused)"));
+            }
+        }
+    }
     // other error seed: masks identical, body different
     let mut p2 = p.clone();
     p2.seed_xe = p.seed_xe ^ 0x5EED_0001;
